@@ -82,6 +82,24 @@ const ITEMS: &[Item] = &[
     Item { name: "text-transform", src: r#"<text xy="10" transform="translate(400)">SA:moved</text>"#, bbox: None, defs: "" },
     // path with several sub-paths: closepath returns to the start of the CURRENT sub-path
     Item { name: "path-subpaths", src: r#"<path d="M0 0 h10 M50 50 h10 v10 z l20 20"/>"#, bbox: Some((0., 0., 70., 70.)), defs: "" },
+    // second review round: chains of use, clip paths on other containers, clip path units, empty clip paths,
+    // per-glyph text positions, sums which are whole numbers only in exact arithmetic
+    Item { name: "use-of-use", src: r##"<use href="#duu"/>"##, bbox: Some((100., 7., 104., 10.)), defs: r##"<rect id="du2" wh="4 3"/><use id="duu" href="#du2" x="100" y="7"/>"## },
+    Item { name: "use-of-use-transform", src: r##"<use href="#dut" x="1"/>"##, bbox: Some((21., 0., 29., 6.)), defs: r##"<rect id="du3" wh="4 3"/><use id="dut" href="#du3" x="10" transform="scale(2)"/>"## },
+    Item { name: "a-clipped", src: r##"<a href="x" clip-path="url(#dc10)"><rect wh="100"/></a>"##, bbox: Some((0., 0., 10., 10.)), defs: r#"<clipPath id="dc10"><rect wh="10"/></clipPath>"# },
+    Item { name: "switch-clipped", src: r##"<switch clip-path="url(#dc10)"><rect xy="5" wh="100"/></switch>"##, bbox: Some((5., 5., 10., 10.)), defs: r#"<clipPath id="dc10"><rect wh="10"/></clipPath>"# },
+    Item { name: "clip-object-bounding-box", src: r##"<rect xy="50" wh="20" clip-path="url(#dcobb)"/>"##, bbox: Some((50., 50., 70., 70.)), defs: r#"<clipPath id="dcobb" clipPathUnits="objectBoundingBox"><rect wh="1"/></clipPath>"# },
+    Item { name: "clip-object-bounding-box-half", src: r##"<g clip-path="url(#dcobh)"><rect xy="-50 10" wh="40 20"/></g>"##, bbox: Some((-30., 10., -10., 20.)), defs: r#"<clipPath id="dcobh" clipPathUnits="objectBoundingBox"><rect xy="0.5 0" wh="0.5 0.5"/></clipPath>"# },
+    Item { name: "use-of-clipped-shape", src: r##"<use href="#dclr" x="3"/>"##, bbox: Some((3., 0., 13., 10.)), defs: r##"<clipPath id="dc10s"><rect wh="10"/></clipPath><rect id="dclr" wh="50" clip-path="url(#dc10s)"/>"## },
+    Item { name: "use-of-translated-clipped-group", src: r##"<use href="#dclg"/>"##, bbox: Some((100., 0., 110., 10.)), defs: r##"<clipPath id="dc10g"><rect wh="10"/></clipPath><g id="dclg" transform="translate(100)" clip-path="url(#dc10g)"><rect wh="50"/></g>"## },
+    Item { name: "clip-empty", src: r##"<rect xy="-500 -500" wh="100" clip-path="url(#dcempty)"/>"##, bbox: None, defs: r#"<clipPath id="dcempty"/>"# },
+    Item { name: "clip-only-comment", src: r##"<g clip-path="url(#dccom)"><rect xy="-500 -500" wh="100"/></g>"##, bbox: None, defs: r#"<clipPath id="dccom"><!-- nothing --></clipPath>"# },
+    Item { name: "text-x-list", src: r#"<text x="10 20 30" y="50">abc</text>"#, bbox: Some((10., 50., 10., 50.)), defs: "" },
+    Item { name: "text-y-list", src: r#"<text x="-10" y="50, 60">ab</text>"#, bbox: Some((-10., 50., -10., 50.)), defs: "" },
+    Item { name: "rect-sum-whole", src: r#"<rect x="-21.8" y="0" width="7.8" height="1"/>"#, bbox: Some((-21.8, 0., -14., 1.)), defs: "" },
+    Item { name: "rect-sum-whole-2", src: r#"<rect x="0.7" y="0.1" width="2.3" height="0.2"/>"#, bbox: Some((0.7, 0.1, 3., 0.3)), defs: "" },
+    Item { name: "g-scale-sum-whole", src: r#"<g transform="scale(0.3)"><rect wh="100 1"/></g>"#, bbox: Some((0., 0., 30., 0.3)), defs: "" },
+    Item { name: "use-symbol-viewbox", src: r##"<use href="#dsv" x="20" y="20" width="10" height="10"/>"##, bbox: Some((20., 20., 30., 30.)), defs: r#"<symbol id="dsv" viewBox="0 0 100 100"><rect wh="100"/></symbol>"# },
     Item { name: "path-subpaths-rel", src: r#"<path d="m0 0 h10 m40 50 h10 v10 z m-30 -30 l-40 0"/>"#, bbox: Some((-20., 0., 60., 60.)), defs: "" },
 ];
 
@@ -324,7 +342,7 @@ pub fn run(tier: Tier) -> i32 {
         }
     }
     rep.set("rule", json!(format!("Documents of 1-2 (thorough: 3) items from {} items with known contribution to the extent: every bbox-bearing kind (rect, circle, ellipse, line, polyline, polygon, absolute and relative path, image, foreignObject, nested svg, use of rect/circle/symbol), standalone text (anchor point), shape with generated text outside (adds only the shape), box (invisible, included), point (nothing), groups with no/translate/uniform/non-uniform/mirroring/combined transforms, a shape with its own transform, a clipped shape, content of defs/specs/symbol/marker/pattern (nothing), a forward-referenced pair, a loop, a reuse x border {{0,5,13}} x scale {{1,2.5,0.5}} x 9 root attribute sets (none, width with unit, height in percent, both, viewBox, viewBox+width, viewBox+height, all, version+xmlns:xlink). Reference model: union of the known boxes, grown by the border, rounded outward; viewBox = that box; width/height = size x scale in mm; supplied attributes verbatim; a single supplied dimension determines the other by the aspect ratio with the same unit; version/xmlns only when missing. Non-trivial = Ok, non-empty extent, all root attributes as expected.", ITEMS.len())));
-    rep.set("also", json!("Also: transforms on <use> and <a>, transform combined with clip-path (on a group, on a shape, and a <use> of such a group), url() references written with quotes / blanks, clip-path on <reuse>, clipPath / mask / marker / pattern / gradient / filter written outside <defs>, variables and expressions in a group's transform, standalone text whose anchor is read from the OUTPUT (relative, text-loc, at a corner, with tspan child, with its own transform), paths with several sub-paths, root width / height given as plain numbers, a root wrapped in <if> / <loop>; derived dimensions must never be inf / NaN."));
+    rep.set("also", json!("Also: transforms on <use> and <a>, transform combined with clip-path (on a group, on a shape, and a <use> of such a group), url() references written with quotes / blanks, clip-path on <reuse>, clipPath / mask / marker / pattern / gradient / filter written outside <defs>, variables and expressions in a group's transform, standalone text whose anchor is read from the OUTPUT (relative, text-loc, at a corner, with tspan child, with its own transform), paths with several sub-paths, root width / height given as plain numbers, a root wrapped in <if> / <loop>; derived dimensions must never be inf / NaN. Second review round: a <use> of a <use> (with position / transform), a <use> of an element with its own clip-path, clip-path on <a> and <switch>, clipPathUnits=objectBoundingBox (whole and part of the box), empty and comment-only clip paths (clip everything), <text> with glyph position lists, boxes whose far edge is a whole number only in exact arithmetic (-21.8 + 7.8, 0.7 + 2.3, 100 x 0.3), a <use> with width/height of a <symbol> with a viewBox."));
     let st = run_space(cases.len(), |i| check(&cases[i]));
     rep.sample(json!({"doc": document(&cases[cases.len() / 2]), "border": cases[cases.len() / 2].border}));
     rep.sample(json!({"doc": document(&cases[5])}));
